@@ -1,3 +1,801 @@
 package main
 
-func (d *driver) run() {}
+import (
+	"crypto/sha1"
+	"encoding/hex"
+	"encoding/json"
+	"fmt"
+	"os"
+	"path/filepath"
+	"sort"
+	"strings"
+	"sync"
+
+	"verif/harness/internal/casefile"
+	"verif/harness/internal/crashfs"
+)
+
+// Active.Suicide does not remove the .index that a published-but-not-released seal left next to a
+// fraction replayed as active (SkipSortDocs only): reported to the lead, one stable fingerprint
+const findingLoneIndex = "finding:unsorted-lone-index-left"
+
+func has(sufs []string, s string) bool {
+	for _, x := range sufs {
+		if x == s {
+			return true
+		}
+	}
+	return false
+}
+
+// the loader's classification, only as far as the driver needs it to label windows
+func isActiveClass(sufs []string) bool {
+	if has(sufs, ".docs.del") || has(sufs, ".sdocs.del") || has(sufs, ".index.del") {
+		return false
+	}
+	if !has(sufs, ".docs") && !has(sufs, ".sdocs") {
+		return false
+	}
+	if has(sufs, ".sdocs") && has(sufs, ".index") {
+		return false
+	}
+	return has(sufs, ".meta")
+}
+
+func lkindCoq(k string) string {
+	switch k {
+	case "sealed":
+		return "LSealed"
+	case "active":
+		return "LActive"
+	}
+	return "LNone"
+}
+
+// ------------------------------------------------------------------------------- lineage bookkeeping
+
+type point struct {
+	h *history
+	k int // crash before operation k of the trace (k = len(ops): after everything)
+}
+
+func (p point) desc() map[string]any {
+	m := p.h.desc()
+	m["crash_before_op"] = p.k
+	if p.k < len(p.h.Trace.Ops) {
+		m["crash_before"] = p.h.Trace.Ops[p.k].String()
+	} else {
+		m["crash_before"] = "(end of history)"
+	}
+	return m
+}
+
+// created returns the fractions in creation order known at point k.
+func (h *history) created(k int) []string {
+	var out []string
+	seen := map[string]bool{}
+	if h.Base != nil {
+		for _, f := range h.Base.Created {
+			out = append(out, f)
+			seen[f] = true
+		}
+	}
+	for i := 0; i < k && i < len(h.Trace.Ops); i++ {
+		if f, x, ok := project(h.Trace.Ops[i]); ok && x.K == "create" && !seen[f] {
+			seen[f] = true
+			out = append(out, f)
+		}
+	}
+	return out
+}
+
+func (h *history) docsAt(k int) []doc {
+	var out []doc
+	if h.Base != nil {
+		out = append(out, h.Base.Docs...)
+	}
+	for _, c := range h.Calls {
+		if c.Step.Op == "bulk" && c.Err == "" && c.MarkIdx < k {
+			out = append(out, c.Docs...)
+		}
+	}
+	return out
+}
+
+func (h *history) doomedAt(k int) map[string]bool {
+	out := map[string]bool{}
+	if h.Base != nil {
+		for f, v := range h.Base.Doomed {
+			out[f] = v
+		}
+	}
+	for i := 0; i < k && i < len(h.Trace.Ops); i++ {
+		if f, x, ok := project(h.Trace.Ops[i]); ok && x.K == "rename" && strings.HasSuffix(x.B, ".del") {
+			out[f] = true
+		}
+	}
+	// fractions of the base state that the restart at the head of this history did not serve
+	if h.Base != nil && len(h.Calls) > 0 && h.Calls[0].Err == "" && h.Calls[0].MarkIdx < k {
+		listed := map[string]bool{}
+		for _, f := range h.Calls[0].After {
+			listed[f.Name] = true
+		}
+		for _, f := range h.Base.Created {
+			if !listed[f] {
+				out[f] = true
+			}
+		}
+	}
+	return out
+}
+
+// inMultiDrop: k lies strictly inside a retention pass that pushed out more than one fraction (the
+// deletions run in parallel goroutines there, so the order of operations is not reproducible)
+func (h *history) inMultiDrop(k int) bool {
+	prev := -1
+	for _, c := range h.Calls {
+		if c.Step.Op == "shrink" && c.Err == "" && len(c.Before)-len(c.After) > 1 && k > prev+1 && k <= c.MarkIdx {
+			return true
+		}
+		prev = c.MarkIdx
+	}
+	return false
+}
+
+// ------------------------------------------------------------------------------- cases
+
+func (d *driver) fracstCoq(files []string, hasdata, doomed bool) string {
+	return fmt.Sprintf("mkst %s %s %s", coqKinds(files), casefile.Bool(hasdata), casefile.Bool(doomed))
+}
+
+type loadJob struct {
+	p      point
+	state  *crashfs.State
+	class  string
+	obs    loadObs
+	err    error
+	docs   []doc
+	known  []string
+	doomed map[string]bool
+}
+
+func (d *driver) runLoads(jobs []*loadJob, sorted bool) {
+	var wg sync.WaitGroup
+	ch := make(chan *loadJob)
+	for i := 0; i < workers; i++ {
+		wg.Add(1)
+		go func() {
+			defer wg.Done()
+			for j := range ch {
+				j.obs, j.err = d.observe(j.state, sorted, j.docs, j.known)
+			}
+		}()
+	}
+	for _, j := range jobs {
+		ch <- j
+	}
+	close(ch)
+	wg.Wait()
+}
+
+func (d *driver) emitLoad(j *loadJob, sorted bool) {
+	if j.err != nil {
+		fmt.Fprintln(os.Stderr, "hC15: harness error while observing a crash state:", j.err)
+		d.w.Count("harness_errors")
+		return
+	}
+	sets := fileSets(j.state.FileNames())
+	nExp := map[string]int{}
+	for _, x := range j.docs {
+		nExp[x.Frac]++
+	}
+	var dir, obsC []string
+	var in []map[string]any
+	class := j.class
+	for _, f := range j.known {
+		files := sets[f]
+		dir = append(dir, d.fracstCoq(files, nExp[f] > 0, j.doomed[f]))
+		in = append(in, map[string]any{"files": files, "docs": nExp[f], "deletion_seen": j.doomed[f]})
+		if !j.obs.Died {
+			kind := ""
+			for _, o := range j.obs.Fracs {
+				if o.Name == f {
+					kind = o.Kind
+				}
+			}
+			st := j.obs.Stats[f]
+			if st == nil {
+				st = &docStat{}
+			}
+			after := j.obs.After[f]
+			obsC = append(obsC, fmt.Sprintf("mkobs %s %d%%N %d%%N %d%%N %s", lkindCoq(kind), st.Expected, st.OK, st.Wrong, coqKinds(after)))
+			if kind == "" && !sorted && has(after, ".index") && !has(after, ".docs") && !has(after, ".sdocs") &&
+				!has(after, ".docs.del") && !has(after, ".sdocs.del") && !has(after, ".index.del") {
+				class = findingLoneIndex
+			}
+		}
+	}
+	impl := "None"
+	var implJ any = map[string]any{"died": true, "stderr_tail": j.obs.Err}
+	if !j.obs.Died {
+		impl = "(Some [" + strings.Join(obsC, "; ") + "])"
+		implJ = map[string]any{"fracs": j.obs.Fracs, "docs": j.obs.Stats, "files_after": j.obs.After, "err": j.obs.Err}
+	} else {
+		d.w.Count("restart_died")
+	}
+	term := fmt.Sprintf("CLoad %s [%s] %s", casefile.Bool(sorted), strings.Join(dir, "; "), impl)
+	nontrivial := false
+	for _, f := range j.known {
+		fs := sets[f]
+		if len(fs) > 0 && !(len(fs) == 2 && has(fs, ".sdocs") && has(fs, ".index")) && !(len(fs) == 2 && has(fs, ".docs") && has(fs, ".meta")) {
+			nontrivial = true // some fraction is in an intermediate file set
+		}
+	}
+	d.w.Add(term, class, nontrivial, map[string]any{"at": j.p.desc(), "dir": in}, implJ)
+}
+
+// window returns for call i the half-open range of trace operations it issued.
+func (h *history) window(i int) (int, int) {
+	lo := 0
+	if i > 0 {
+		lo = h.Calls[i-1].MarkIdx + 1
+		// skip the follow-up info mark
+		for lo < len(h.Trace.Ops) && h.Trace.Ops[lo].Kind == crashfs.Mark {
+			lo++
+		}
+	}
+	return lo, h.Calls[i].MarkIdx
+}
+
+func (d *driver) emitOps(h *history) {
+	for i, c := range h.Calls {
+		if c.Err != "" {
+			continue
+		}
+		lo, hi := h.window(i)
+		if hi > len(h.Trace.Ops) {
+			hi = len(h.Trace.Ops)
+		}
+		per := map[string][]xop{}
+		var order []string
+		for k := lo; k < hi; k++ {
+			if f, x, ok := project(h.Trace.Ops[k]); ok {
+				if _, seen := per[f]; !seen {
+					order = append(order, f)
+				}
+				per[f] = append(per[f], x)
+			}
+		}
+		if len(order) == 0 {
+			continue
+		}
+		before := fileSets(h.Trace.StateAt(lo).FileNames())
+		docs := h.docsAt(lo)
+		nExp := map[string]int{}
+		for _, x := range docs {
+			nExp[x.Frac]++
+		}
+		doomed := h.doomedAt(lo)
+		created := h.created(lo)
+		for _, f := range order {
+			bf := before[f]
+			ev, class := "", ""
+			switch c.Step.Op {
+			case "open":
+				known := false
+				for _, x := range created {
+					if x == f {
+						known = true
+					}
+				}
+				if !known {
+					ev, class = "EvCreate", "ops:create"
+				} else {
+					nonlast := false
+					after := false
+					for _, x := range created {
+						if after && isActiveClass(before[x]) && nExp[x] > 0 {
+							nonlast = true
+						}
+						if x == f {
+							after = true
+						}
+					}
+					ev, class = "(EvLoad "+casefile.Bool(nonlast)+")", "ops:load"
+				}
+			case "seal", "rotate":
+				if len(bf) == 0 {
+					ev, class = "EvCreate", "ops:create"
+				} else {
+					ev, class = "EvSeal", "ops:seal"
+				}
+			case "shrink":
+				kind := "active"
+				for _, o := range c.Before {
+					if o.Name == f {
+						kind = o.Kind
+					}
+				}
+				if kind == "sealed" {
+					ev, class = "EvSealedSuicide", "ops:delete-sealed"
+				} else {
+					ev, class = "EvActiveSuicide", "ops:delete-active"
+					if !h.Sorted && has(bf, ".index") && !has(bf, ".sdocs") {
+						class = findingLoneIndex
+					}
+				}
+			default:
+				d.w.Count("ops_in_unexpected_window")
+				continue
+			}
+			term := fmt.Sprintf("COps %s %s %s %s %s %s", ev, casefile.Bool(h.Sorted), casefile.Bool(nExp[f] > 0), casefile.Bool(doomed[f]),
+				coqKinds(bf), coqXops(per[f]))
+			d.w.Add(term, class, len(per[f]) > 1, map[string]any{"history": h.desc(), "call": i, "step": c.Step, "files_before": bf, "docs": nExp[f]},
+				xopStrings(per[f]))
+		}
+	}
+}
+
+func (d *driver) emitShrinks(h *history) {
+	for _, c := range h.Calls {
+		if c.Step.Op != "shrink" || c.Err != "" {
+			continue
+		}
+		var sizes []uint64
+		var removed []int
+		left := map[string]bool{}
+		for _, f := range c.After {
+			left[f.Name] = true
+		}
+		for i, f := range c.Before {
+			sizes = append(sizes, f.Full)
+			if !left[f.Name] {
+				removed = append(removed, i)
+			}
+		}
+		term := fmt.Sprintf("CShrink %d%%N %s %s", c.Limit, casefile.NList(sizes), casefile.NatList(removed))
+		d.w.Add(term, "retention", len(removed) > 0 && len(removed) < len(sizes), map[string]any{"history": h.desc(), "limit": c.Limit, "sizes": sizes},
+			map[string]any{"removed_positions": removed})
+		d.w.Count(fmt.Sprintf("retention_removed_%d", len(removed)))
+	}
+}
+
+// crashPoints: before every create/rename/unlink, and the end.
+func (h *history) crashPoints() []int {
+	var out []int
+	for k, o := range h.Trace.Ops {
+		if isNameOp(o) && !h.inMultiDrop(k) {
+			out = append(out, k)
+		}
+	}
+	return append(out, len(h.Trace.Ops))
+}
+
+func (d *driver) exploreCrashes(h *history, class string, pts []int) []*loadJob {
+	var jobs []*loadJob
+	for _, k := range pts {
+		j := &loadJob{p: point{h, k}, state: h.Trace.StateAt(k), class: class, docs: h.docsAt(k), known: h.created(k), doomed: h.doomedAt(k)}
+		jobs = append(jobs, j)
+	}
+	d.runLoads(jobs, h.Sorted)
+	for _, j := range jobs {
+		d.emitLoad(j, h.Sorted)
+	}
+	return jobs
+}
+
+func (d *driver) genSteps(n int) []step {
+	steps := []step{{Op: "bulk", N: d.r.Range(2, 4)}, {Op: "seal"}}
+	for len(steps) < n {
+		switch d.r.Intn(10) {
+		case 0, 1, 2:
+			steps = append(steps, step{Op: "bulk", N: d.r.Range(1, 4)})
+		case 3, 4:
+			steps = append(steps, step{Op: "bulk", N: d.r.Range(1, 3)}, step{Op: "seal"})
+		case 5:
+			steps = append(steps, step{Op: "bulk", N: d.r.Range(1, 3)}, step{Op: "rotate"})
+		case 6, 7:
+			delta := 0
+			if d.r.Chance(1, 3) {
+				delta = -1
+			} else if d.r.Chance(1, 3) {
+				delta = 1
+			}
+			steps = append(steps, step{Op: "shrink", Drop: 1, Delta: delta})
+		case 8:
+			steps = append(steps, step{Op: "synccache"})
+		case 9:
+			steps = append(steps, step{Op: "shrink", Drop: d.r.Range(0, 2), Delta: d.r.Range(-1, 1)})
+		}
+	}
+	steps = append(steps, step{Op: "synccache"}, step{Op: "bulk", N: 2}, step{Op: "seal"}, step{Op: "shrink", Drop: 1}, step{Op: "synccache"})
+	return steps
+}
+
+func (d *driver) contSteps(variant int) []step {
+	switch variant % 3 {
+	case 0:
+		return []step{{Op: "rotate"}, {Op: "shrink", Drop: 1}, {Op: "shrink", Drop: 1}, {Op: "synccache"}, {Op: "shrink", Drop: 1}}
+	case 1:
+		return []step{{Op: "bulk", N: 2}, {Op: "seal"}, {Op: "shrink", Drop: 1}, {Op: "synccache"}}
+	}
+	return []step{{Op: "shrink", Drop: 1}, {Op: "bulk", N: 1}, {Op: "rotate"}, {Op: "shrink", Drop: 1}, {Op: "shrink", Drop: 1}}
+}
+
+func (d *driver) execHistory(h *history) bool {
+	for attempt := 0; attempt < 2; attempt++ {
+		h.Calls = nil
+		err := d.runHistory(h)
+		if err == nil {
+			err = h.Trace.Verify()
+		}
+		if err == nil {
+			return true
+		}
+		fmt.Fprintln(os.Stderr, "hC15: trace not usable:", err)
+		d.w.Count("trace_unusable")
+	}
+	return false
+}
+
+func (d *driver) run() {
+	quick := d.tier == "quick"
+	nSteps, nCont, rounds := 9, 9, 1
+	if !quick {
+		nSteps, nCont, rounds = 12, 40, 3
+	}
+	for round := 0; round < rounds; round++ {
+		for _, sorted := range []bool{true, false} {
+			h := &history{ID: fmt.Sprintf("H%d-%v", round, sorted), Sorted: sorted, Steps: d.genSteps(nSteps)}
+			if !d.execHistory(h) {
+				continue
+			}
+			d.w.Count("histories")
+			d.afterHistory(h)
+			jobs := d.exploreCrashes(h, "load:crash-state", h.crashPoints())
+			// continue selected crash states with a second history
+			var cands []*loadJob
+			var forced []*loadJob
+			firstSeal := true
+			for i, c := range h.Calls {
+				if c.Step.Op != "seal" && c.Step.Op != "shrink" && c.Step.Op != "rotate" {
+					continue
+				}
+				lo, hi := h.window(i)
+				for _, j := range jobs {
+					if j.p.k > lo && j.p.k <= hi && !j.obs.Died && j.err == nil {
+						if c.Step.Op == "seal" && firstSeal {
+							forced = append(forced, j)
+						} else {
+							cands = append(cands, j)
+						}
+					}
+				}
+				if c.Step.Op == "seal" {
+					firstSeal = false
+				}
+			}
+			for i := len(cands) - 1; i > 0; i-- {
+				k := d.r.Intn(i + 1)
+				cands[i], cands[k] = cands[k], cands[i]
+			}
+			if len(cands) > nCont {
+				cands = cands[:nCont]
+			}
+			for n, j := range append(forced, cands...) {
+				variant := n
+				if n < len(forced) {
+					variant = 0 // rotate + retention: deletes the replayed fraction while it is still active
+				}
+				h2 := &history{ID: fmt.Sprintf("%s/c%d", h.ID, j.p.k), Sorted: sorted, Steps: d.contSteps(variant),
+					Base: &baseInfo{State: j.state, Docs: j.docs, Doomed: j.doomed, Created: j.known, Desc: j.p.desc()}}
+				if !d.execHistory(h2) {
+					continue
+				}
+				d.w.Count("continued_histories")
+				if !h2.OpenOK {
+					continue
+				}
+				d.afterHistory(h2)
+				d.exploreCrashes(h2, "load:crash-state-2", h2.crashPoints())
+			}
+			d.sweep(h)
+			d.cacheCases(h)
+		}
+	}
+}
+
+func (d *driver) afterHistory(h *history) {
+	d.emitOps(h)
+	d.emitShrinks(h)
+	os.RemoveAll(h.Dir)
+}
+
+// ------------------------------------------------------------------------------- 2^7 file sets
+
+var sweepKinds = []string{".docs", ".docs.del", ".sdocs", ".sdocs.del", ".index", ".index.del", ".meta"}
+
+// sweep builds every subset of the seven loader-visible files of ONE fraction from real file
+// contents (active form before its seal, sealed form after it) and restarts on it.
+func (d *driver) sweep(h *history) {
+	// first fraction that was sealed in this history
+	var name string
+	var sealCall int
+	for i, c := range h.Calls {
+		if c.Step.Op == "seal" && c.Err == "" && len(c.Before) > 0 && c.Before[len(c.Before)-1].Docs > 0 {
+			name, sealCall = c.Before[len(c.Before)-1].Name, i
+			break
+		}
+	}
+	if name == "" {
+		return
+	}
+	lo, hi := h.window(sealCall)
+	pre := h.Trace.StateAt(lo).Files()
+	post := h.Trace.StateAt(hi).Files()
+	content := map[string][]byte{".docs": pre[name+".docs"], ".meta": pre[name+".meta"], ".index": post[name+".index"]}
+	if h.Sorted {
+		content[".sdocs"] = post[name+".sdocs"]
+	} else {
+		// no sorted file exists in this configuration: a copy with other bytes stands in for it
+		b := append([]byte(nil), pre[name+".docs"]...)
+		for i := range b {
+			b[i] ^= 0x5a
+		}
+		content[".sdocs"] = b
+	}
+	content[".docs.del"], content[".sdocs.del"], content[".index.del"] = content[".docs"], content[".sdocs"], content[".index"]
+	var docs []doc
+	for _, x := range h.docsAt(lo) {
+		if x.Frac == name {
+			docs = append(docs, x)
+		}
+	}
+	type job struct {
+		files []string
+		hd    bool
+		obs   loadObs
+		err   error
+	}
+	var jobs []*job
+	for mask := 0; mask < 1<<len(sweepKinds); mask++ {
+		var files []string
+		for b, k := range sweepKinds {
+			if mask&(1<<b) != 0 {
+				files = append(files, k)
+			}
+		}
+		jobs = append(jobs, &job{files: canon(files), hd: true})
+	}
+	// empty-fraction variants (nothing to replay)
+	for _, fs := range [][]string{{".docs", ".meta"}, {".meta"}, {".docs"}, {".docs", ".meta", ".index.del"}} {
+		jobs = append(jobs, &job{files: canon(fs), hd: false})
+	}
+	var wg sync.WaitGroup
+	ch := make(chan *job)
+	for i := 0; i < workers; i++ {
+		wg.Add(1)
+		go func() {
+			defer wg.Done()
+			for j := range ch {
+				dir := d.newDir()
+				os.MkdirAll(dir, 0o755)
+				for _, k := range j.files {
+					var b []byte
+					if j.hd {
+						b = content[k]
+					}
+					os.WriteFile(filepath.Join(dir, name+k), b, 0o644)
+				}
+				var dd []doc
+				if j.hd {
+					dd = docs
+				}
+				j.obs, j.err = d.observeDir(dir, h.Sorted, dd, []string{name})
+				os.RemoveAll(dir)
+			}
+		}()
+	}
+	for _, j := range jobs {
+		ch <- j
+	}
+	close(ch)
+	wg.Wait()
+	for _, j := range jobs {
+		if j.err != nil {
+			d.w.Count("harness_errors")
+			continue
+		}
+		impl := "None"
+		var implJ any = map[string]any{"died": true, "stderr_tail": j.obs.Err}
+		class := "sweep:file-set"
+		if !j.obs.Died {
+			kind := ""
+			for _, o := range j.obs.Fracs {
+				if o.Name == name {
+					kind = o.Kind
+				}
+			}
+			st := j.obs.Stats[name]
+			after := j.obs.After[name]
+			impl = fmt.Sprintf("(Some (mkobs %s %d%%N %d%%N %d%%N %s))", lkindCoq(kind), st.Expected, st.OK, st.Wrong, coqKinds(after))
+			implJ = map[string]any{"listed": kind, "docs": st, "files_after": after}
+			if kind == "" && !h.Sorted && has(after, ".index") && len(after) <= 2 && (len(after) == 1 || has(after, ".meta")) {
+				class = findingLoneIndex
+			}
+		}
+		term := fmt.Sprintf("CSweep %s %s %s %s", casefile.Bool(h.Sorted), casefile.Bool(j.hd), coqKinds(j.files), impl)
+		d.w.Add(term, class, len(j.files) > 0, map[string]any{"sort_docs": h.Sorted, "files": j.files, "has_documents": j.hd}, implJ)
+	}
+	d.w.Exhaust = true
+}
+
+// ------------------------------------------------------------------------------- .frac-cache variants
+
+type cacheInfo struct {
+	Name        string `json:"name"`
+	DocsTotal   uint32 `json:"docs_total"`
+	DocsOnDisk  uint64 `json:"docs_on_disk"`
+	MetaOnDisk  uint64 `json:"meta_on_disk"`
+	IndexOnDisk uint64 `json:"index_on_disk"`
+	From        uint64 `json:"from"`
+	To          uint64 `json:"to"`
+}
+
+func infoCoq(docs uint32, from, to, dod, iod, mod uint64) string {
+	return fmt.Sprintf("(mkinfo %d%%N %d%%N %d%%N %d%%N %d%%N %d%%N)", docs, from, to, dod, iod, mod)
+}
+
+func (d *driver) cacheCases(h *history) {
+	// every version of .frac-cache the history wrote, and the final directory
+	final := h.Trace.StateAt(len(h.Trace.Ops))
+	var versions [][]byte
+	for k, o := range h.Trace.Ops {
+		if o.Kind == crashfs.Rename && o.Path2 == ".frac-cache" {
+			versions = append(versions, h.Trace.StateAt(k + 1).Files()[".frac-cache"])
+		}
+	}
+	if len(versions) == 0 {
+		return
+	}
+	known := h.created(len(h.Trace.Ops))
+	docs := h.docsAt(len(h.Trace.Ops))
+	type variant struct {
+		name    string
+		content []byte // nil = no file
+		genuine bool
+	}
+	last := versions[len(versions)-1]
+	vs := []variant{{"absent", nil, true}, {"current", last, true}}
+	for i, v := range versions[:len(versions)-1] {
+		vs = append(vs, variant{fmt.Sprintf("stale-%d", i), v, true})
+	}
+	cuts := []int{0, 1, len(last) / 3, len(last) / 2, len(last) - 1}
+	if d.tier != "quick" {
+		cuts = nil
+		for n := 0; n < len(last); n += 1 + len(last)/120 {
+			cuts = append(cuts, n)
+		}
+	}
+	for _, n := range cuts {
+		if n >= 0 && n < len(last) {
+			vs = append(vs, variant{fmt.Sprintf("truncated-%d", n), last[:n], true})
+		}
+	}
+	vs = append(vs, variant{"garbage", []byte("\x00\x01 not json"), true})
+	// tampered: sizes changed (fast path taken with wrong numbers) and index size zeroed (fallback)
+	var m map[string]map[string]any
+	if json.Unmarshal(last, &m) == nil && len(m) > 0 {
+		var names []string
+		for n := range m {
+			names = append(names, n)
+		}
+		sort.Strings(names)
+		m[names[0]]["docs_on_disk"] = 123456
+		b1, _ := json.Marshal(m)
+		vs = append(vs, variant{"tampered-size", b1, false})
+		m[names[0]]["index_on_disk"] = 0
+		b2, _ := json.Marshal(m)
+		vs = append(vs, variant{"tampered-zero-index", b2, false})
+	}
+	type res struct {
+		obs loadObs
+		err error
+	}
+	results := make([]res, len(vs))
+	var wg sync.WaitGroup
+	sem := make(chan struct{}, workers)
+	for i, v := range vs {
+		wg.Add(1)
+		sem <- struct{}{}
+		go func(i int, v variant) {
+			defer wg.Done()
+			defer func() { <-sem }()
+			dir := d.newDir()
+			defer os.RemoveAll(dir)
+			if err := final.Materialize(dir); err != nil {
+				results[i].err = err
+				return
+			}
+			os.Remove(filepath.Join(dir, ".frac-cache"))
+			if v.content != nil {
+				os.WriteFile(filepath.Join(dir, ".frac-cache"), v.content, 0o644)
+			}
+			results[i].obs, results[i].err = d.observeDir(dir, h.Sorted, docs, known)
+		}(i, v)
+	}
+	wg.Wait()
+	if results[0].err != nil || results[0].obs.Died {
+		d.w.Count("harness_errors")
+		return
+	}
+	hdr := map[string]fracObs{}
+	var sealedNames []string
+	for _, f := range results[0].obs.Fracs {
+		if f.Kind == "sealed" {
+			hdr[f.Name] = f
+			sealedNames = append(sealedNames, f.Name)
+		}
+	}
+	for i, v := range vs {
+		r := results[i]
+		if r.err != nil {
+			d.w.Count("harness_errors")
+			continue
+		}
+		if r.obs.Died {
+			d.w.Violate("cache:restart-died", "restart with a "+v.name+" .frac-cache died", map[string]any{"history": h.desc(), "variant": v.name,
+				"content_hex": hex.EncodeToString(v.content), "stderr_tail": r.obs.Err})
+			continue
+		}
+		// the entries as the same JSON library parses them
+		entries := map[string]cacheInfo{}
+		parsed := map[string]*cacheInfo{}
+		if v.content != nil && json.Unmarshal(v.content, &parsed) == nil {
+			for n, e := range parsed {
+				if e != nil {
+					entries[n] = *e
+				}
+			}
+		}
+		impl := map[string]fracObs{}
+		for _, f := range r.obs.Fracs {
+			impl[f.Name] = f
+		}
+		var items []string
+		servedAll := true
+		for _, n := range sealedNames {
+			hd := hdr[n]
+			im, ok := impl[n]
+			if !ok {
+				servedAll = false
+				continue
+			}
+			ent := "None"
+			if e, ok := entries[n]; ok {
+				ent = "(Some " + infoCoq(e.DocsTotal, e.From, e.To, e.DocsOnDisk, e.IndexOnDisk, e.MetaOnDisk) + ")"
+			}
+			items = append(items, fmt.Sprintf("mkcinfo %s %s %s", ent, infoCoq(hd.Docs, hd.From, hd.To, hd.DocsOD, hd.IdxOD, hd.MetaOD),
+				infoCoq(im.Docs, im.From, im.To, im.DocsOD, im.IdxOD, im.MetaOD)))
+		}
+		okDocs := true
+		for f, st := range r.obs.Stats {
+			st0 := results[0].obs.Stats[f]
+			if st0 != nil && (st.OK != st0.OK || st.Wrong != st0.Wrong) {
+				okDocs = false
+			}
+		}
+		if !servedAll || !okDocs {
+			d.w.Violate("cache:served-set-differs", "restart with a "+v.name+" .frac-cache serves other fractions/documents than without the file",
+				map[string]any{"history": h.desc(), "variant": v.name, "content_hex": hex.EncodeToString(v.content)})
+		}
+		sum := sha1.Sum(v.content)
+		term := fmt.Sprintf("CCache %s [%s]", casefile.Bool(v.genuine), strings.Join(items, "; "))
+		kind := v.name
+		if i := strings.IndexByte(kind, '-'); i > 0 && (strings.HasPrefix(kind, "truncated") || strings.HasPrefix(kind, "stale")) {
+			kind = kind[:i]
+		}
+		d.w.Add(term, "cache:"+kind, len(items) > 0 && v.content != nil, map[string]any{"history": h.ID, "sort_docs": h.Sorted, "variant": v.name, "content_sha1": hex.EncodeToString(sum[:6]), "entries": len(entries)},
+			map[string]any{"sealed_fractions": len(items)})
+	}
+}
